@@ -562,7 +562,21 @@ def r_user_fmt(e, R):
     because of one faulty task).  Such formatting must sit in the body of a try with a broad handler, or not happen at all.
     Integer bookkeeping fields of loky's own items (work ids) are exempt."""
     a = e.anchors
-    SAFE_ATTRS = {"work_id"}
+    # loky's own integer bookkeeping fields of the items: the attributes used as keys of the pending table (work ids)
+    SAFE_ATTRS = set()
+    for q_, f_ in e.prog.funcs.items():
+        if q_ not in a.manager_funcs and q_ not in a.feeder_onerror:
+            continue
+        for n in func_nodes(f_):
+            key = None
+            if isinstance(n, ast.Call) and e.receiver_objs(f_, n, ("pop", "get")) & a.pending and n.args:
+                key = n.args[0]
+            elif isinstance(n, ast.Subscript) and e.objs(f_, n.value) & a.pending:
+                key = n.slice
+            if isinstance(key, ast.Attribute):
+                SAFE_ATTRS.add(key.attr)
+    if not SAFE_ATTRS:
+        raise AnalysisError("R-USER-FMT: the id field of loky's items (key of the pending table) is not recognised")
 
     def tainted_names(f):
         """local names of f that hold user objects, by role"""
@@ -596,7 +610,44 @@ def r_user_fmt(e, R):
                             out.add(t.id)
                 if isinstance(n, ast.Assign) and isinstance(n.value, ast.Subscript) and e.objs(f, n.value.value) & a.pending and isinstance(n.targets[0], ast.Name):
                     out.add(n.targets[0].id)
+                # what the manager received from a worker (result items carry the task's result / exception)
+                if isinstance(n, ast.Assign) and isinstance(n.value, ast.Call) and len(n.targets) == 1 and e.callees_of(n.value) & wait_quals:
+                    out |= received_names(n.targets[0])
+            if f.qualname in result_handlers:
+                out.add(f.params[1])
         return out
+
+    wait_quals = {f_.qualname for f_, _ in a.wait_calls}
+    # positions of the wait function's returned tuple that hold what was received from the pipe
+    recv_pos = set()
+    for f_, _ in a.wait_calls:
+        for r_ in [n for n in func_nodes(f_) if isinstance(n, ast.Return) and n.value is not None]:
+            elts = r_.value.elts if isinstance(r_.value, ast.Tuple) else [r_.value]
+            for i_, x in enumerate(elts):
+                srcs = e.local_defs(f_, x.id) if isinstance(x, ast.Name) else [x]
+                if any(isinstance(c, ast.Call) and isinstance(c.func, ast.Attribute) and c.func.attr == "recv" for s_ in srcs for c in ast.walk(s_)):
+                    recv_pos.add(i_)
+
+    def received_names(target):
+        if isinstance(target, ast.Tuple):
+            return {el.id for i_, el in enumerate(target.elts) if i_ in recv_pos and isinstance(el, ast.Name)}
+        return {target.id} if isinstance(target, ast.Name) and 0 in recv_pos else set()
+
+    # functions of the manager that are handed the received item as their first argument
+    result_handlers = set()
+    for q_ in a.manager_funcs:
+        f_ = e.prog.funcs.get(q_)
+        if f_ is None:
+            continue
+        recv = set()
+        for n in func_nodes(f_):
+            if isinstance(n, ast.Assign) and isinstance(n.value, ast.Call) and e.callees_of(n.value) & wait_quals:
+                recv |= received_names(n.targets[0])
+        for c in [n for n in func_nodes(f_) if isinstance(n, ast.Call)]:
+            if c.args and isinstance(c.args[0], ast.Name) and c.args[0].id in recv:
+                for cq in e.callees_of(c):
+                    if cq in a.manager_funcs and len(e.prog.funcs[cq].params) >= 2:
+                        result_handlers.add(cq)
 
     def mentions(x, names):
         """the formatted expression evaluates to a tainted object or to something hanging off it (not a safe scalar field)"""
@@ -621,7 +672,7 @@ def r_user_fmt(e, R):
             child = p_
             p_ = e.prog.parent.get(id(p_))
         return False
-    n_funcs = n_sinks = 0
+    n_funcs = n_sinks = n_truth = 0
     funcs = [a.worker_main, a.feeder] + [e.prog.funcs[q] for q in a.feeder_onerror if q in e.prog.funcs] + [e.prog.funcs[q] for q in sorted(a.manager_funcs)]
     seen = set()
     for f in funcs:
@@ -657,7 +708,26 @@ def r_user_fmt(e, R):
                     f"`{norm(sink)[:40]}` is a user object (a task, its arguments, its exception or its result): formatting it runs the user's __repr__/__str__ outside "
                     "any handler on a thread / in a loop that is not the user's: if it raises, the feeder thread, the worker or the manager thread dies because of one "
                     "faulty task (futures hang, or a healthy pool is flagged broken)", e.loc(f, n))
-    R.info["user_fmt"] = {"functions_with_user_values": n_funcs, "formatting_sites": n_sinks}
+        # the truth value / equality of a user object is user code too (__bool__, __len__, __eq__): D15
+        g_ = e.cfg(f)
+        for t_ in [x for x in g_.nodes if x.kind == "test"]:
+            x = t_.ast
+            while isinstance(x, ast.UnaryOp) and isinstance(x.op, ast.Not):
+                x = x.operand
+            sink = None
+            if isinstance(x, (ast.Name, ast.Attribute, ast.Subscript)) and mentions(x, names):
+                sink = ("truth value", x)
+            elif isinstance(x, ast.Compare) and any(isinstance(o, (ast.Eq, ast.NotEq, ast.In, ast.NotIn, ast.Lt, ast.Gt, ast.LtE, ast.GtE)) for o in x.ops) \
+                    and any(mentions(y, names) and not (isinstance(y, ast.Name) and False) for y in [x.left] + list(x.comparators)):
+                sink = ("comparison", x)
+            if sink is None:
+                continue
+            n_truth += 1
+            R.check(protected(f, t_.ast), "R-USER-FMT", f"{f.short}: the {sink[0]} of the user object `{norm(sink[1])[:30]}` is not taken on an internal thread", f.short,
+                    f"{sink[0]} of {norm(sink[1])[:50]}",
+                    f"`{norm(t_.ast)[:50]}` takes the {sink[0]} of a user object (a task's result / exception / arguments): __bool__ / __len__ / __eq__ of the user's class "
+                    "decide loky's control flow (a falsy exception is delivered as a result) and, if they raise, kill the thread", e.loc(f, t_.ast))
+    R.info["user_fmt"] = {"functions_with_user_values": n_funcs, "formatting_sites": n_sinks, "truth_sites": n_truth}
     if n_funcs < 3:
         raise AnalysisError(f"R-USER-FMT: only {n_funcs} functions with user-object locals recognised (worker loop, feeder, feeder hook, manager expected)")
     if n_sinks == 0:
